@@ -742,7 +742,7 @@ Plan gen_c09(uint64_t seed, bool th) {
     } else if (x < 85) {
       g.add(g.mk("close", c));
     } else if (x < 93 && timed) {
-      g.add(g.mk("adv", -1, {(int64_t)g.r.range(5, 2500)}));
+      g.add(g.mk("adv", -1, {(int64_t)g.r.range(5, 2500), g.r.pct(35) ? (int64_t)g.r.range(1, 6) : 0, (int64_t)g.r.range(0, 2) - 1}));
     } else if (x < 93 && full_queues) {
       g.add(g.mk("stall", c, {g.r.pct(60) ? 1 : 0}));
     } else if (x < 96) {
@@ -1097,6 +1097,18 @@ Plan gen_c15(uint64_t seed, bool th) {
       g.add(g.mk("adv", -1, {g.r.pct(50) ? (int64_t)g.r.range(1, 200) : (int64_t)g.r.range(200, 3000)}));
     } else if (x < 88) {
       g.add(g.mk("stall", g.a_client(), {g.r.pct(50) ? 1 : 0}));
+    } else if (x < 92) {
+      // surplus descriptors, and before their time is up more surplus from the same connection: the deadline is that
+      // of the first ("held ... within its pending-descriptor timeout"), so the clock is moved past it in two steps
+      long tmo = atol(g.p.cfg["lim.pending_fd_timeout"].c_str());
+      std::string dest = "$u" + std::to_string(g.a_client());
+      g.add(g.mk("send", from, {wire::T_CALL, 1, -1, 0, 0, 0, 0, 0, 0, 2, -1, 0}, {dest, "/obj", "com.example.Iface", "PassFds", "", ""}));
+      g.add(g.bus_step(3));
+      g.add(g.mk("adv", -1, {(int64_t)(tmo * (long)g.r.range(3, 8) / 10)}));
+      g.add(g.mk("send", from, {wire::T_CALL, 1, -1, 0, 0, 0, 0, 0, 0, 1, 0, 0}, {dest, "/obj", "com.example.Iface", "PassFds", "", ""}));
+      g.add(g.bus_step(3));
+      g.add(g.mk("adv", -1, {(int64_t)(tmo * (long)g.r.range(3, 8) / 10)}));
+      g.add(g.mk("adv", -1, {(int64_t)(tmo * (long)g.r.range(3, 8) / 10)}));
     } else g.add(g.mk("deliver", from, {-1}));
     g.pump();
     if (g.r.pct(15)) g.add(g.mk("check"));
@@ -1147,7 +1159,7 @@ Plan gen_c19(uint64_t seed, bool th) {
       int a = (int)g.r.below(100);
       g.add(g.mk("proc", -1, {(int64_t)g.r.below(4), a < 40 ? 0 : a < 85 ? 1 : 2, a < 40 ? 0 : (a < 85 ? (g.r.pct(25) ? 0 : g.r.pct(70) ? (int64_t)g.r.range(1, 127) : 256 + 11) : (int64_t)g.r.range(1, 30))}));
     } else if (x < 79) {
-      g.add(g.mk("adv", -1, {g.r.pct(50) ? (int64_t)g.r.range(1, 150) : (int64_t)g.r.range(150, 3000)}));
+      g.add(g.mk("adv", -1, {g.r.pct(50) ? (int64_t)g.r.range(1, 150) : (int64_t)g.r.range(150, 3000), g.r.pct(35) ? (int64_t)g.r.range(1, 4) : 0, (int64_t)g.r.range(0, 2) - 1}));
     } else if (x < 84) {
       g.add(g.mk("relname", from, {-1}, {a_act()}));
     } else if (x < 89) {
@@ -1176,12 +1188,16 @@ Plan gen_c14(uint64_t seed, bool th) {
   if (g.r.pct(50)) g.p.cfg["policy.spec"] = pol::encode(requested_replies_only_policy());
   g.connect_all(false, true);
   // a history that builds some state: names with queues, rules, an outstanding call
+  // (in a third of the plans every name operation is about ONE name, so that queues of two and three form and the
+  // operation under test inserts into, reorders or leaves a queue - where the rollbacks are)
+  bool qmode = g.r.pct(35);
+  auto hname = [&]() { return qmode ? g.sh.names[0] : g.a_name(); };
   int nh = (int)g.r.range(2, th ? 14 : 8);
   for (int i = 0; i < nh; i++) {
-    int c = g.a_client();
+    int c = qmode && i < g.sh.nclients ? i : g.a_client();
     int x = (int)g.r.below(100);
-    if (x < 45) g.add(g.mk("reqname", c, {(int64_t)g.r.below(8), -1}, {g.a_name()}));
-    else if (x < 55) g.add(g.mk("relname", c, {-1}, {g.a_name()}));
+    if (x < 45 || (qmode && i < 2)) g.add(g.mk("reqname", c, {(int64_t)g.r.below(8), -1}, {hname()}));
+    else if (x < 55) g.add(g.mk("relname", c, {-1}, {hname()}));
     else if (x < 75) { bool vh; std::string rule = gen_rule(g, &vh); if (vh) g.add(g.mk("addmatch", c, {-1}, {rule})); }
     else if (x < 90) g.add(g.mk("send", c, {1, 0, -1}, {g.r.pct(50) ? g.a_name() : "$u" + std::to_string(g.a_client()), "/obj", "com.example.Iface", "Do", "", ""}));
     else g.add(g.mk("reply", c, {0, 0, -1}));
@@ -1210,8 +1226,8 @@ Plan gen_c14(uint64_t seed, bool th) {
     if (g.r.pct(40)) g.p.cfg["reload.include"] = g.r.pct(50) ? "1" : "2";
     g.add(g.mk("query", c, {-1}, {"ReloadConfig", ""}));
   }
-  else if (op < 22) g.add(g.mk("reqname", c, {(int64_t)g.r.below(8), -1}, {g.a_name()}));
-  else if (op < 32) g.add(g.mk("relname", c, {-1}, {g.a_name()}));
+  else if (op < 22 || (qmode && op < 40)) g.add(g.mk("reqname", c, {(int64_t)g.r.below(8), -1}, {hname()}));
+  else if (op < 32 || (qmode && op < 50)) g.add(g.mk("relname", c, {-1}, {hname()}));
   else if (op < 44) { bool vh; std::string rule = gen_rule(g, &vh); g.add(g.mk("addmatch", c, {-1}, {vh ? rule : std::string("type='signal',member='Do'")})); }
   else if (op < 52) { g.add(g.mk("rmmatch", c, {-1}, {"type='signal',sender='org.freedesktop.DBus',member='NameOwnerChanged'"})); }
   else if (op < 64) g.add(g.mk("send", c, {1, g.r.pct(20) ? 1 : 0, -1}, {g.r.pct(60) ? g.a_name() : "$u" + std::to_string(g.a_client()), "/obj", "com.example.Iface", "Do", "", "", "s:payload"}));
